@@ -1,5 +1,7 @@
 import ClusterVerif.Spec.C04
 import ClusterVerif.Spec.C04Conc
+import ClusterVerif.Model.C04Rpc
+import ClusterVerif.Gen.C04
 import Driver.PinParse
 namespace CV.C04
 open CV CV.Parse CV.PinParse
@@ -33,6 +35,15 @@ def parseOp : List String → Option Op
   | ["rpcpin", p] => do pure (.rpcPin (← parsePin p))
   | _ => none
 
+/-- calls that enter through the real ClusterRPCAPI (rpc_api.go) -/
+def parseRpc : List String → Option RpcCall
+  | ["rpc.pin", p] => do pure (.pin (← parsePin p))
+  | ["rpc.unpin", p] => do pure (.unpin (← parsePin p))
+  | ["rpc.pinpath", p, o] => do pure (.pinPath (← p.toNat?) (← parseOpts o))
+  | ["rpc.unpinpath", p, o] => do pure (.unpinPath (← p.toNat?) (← parseOpts o))
+  | ["rpc.pinget", c] => do pure (.pinGet (← c.toNat?))
+  | _ => none
+
 def parseLogEntry (s : String) : Option LogEntry :=
   if s.startsWith "P" then (parsePin (s.drop 1).toString).map .logPin
   else if s.startsWith "U" then (s.drop 1).toNat?.map .logUnpin
@@ -44,7 +55,12 @@ def parseLog (s : String) : Option (List LogEntry) :=
 /-- implementation result: none = err -/
 def parseRes (s : String) : Option (Option Pin) :=
   if s == "err" || s == "panic" then some none
-  else if s.startsWith "ok:" then (parsePin (s.drop 3).toString).map some
+  else if s.startsWith "ok:" then
+    -- a success that hands back a pin without a cid (the zero `api.Pin`: cid.Undef prints as "-") is still a
+    -- success the clauses must judge, not an unreadable case: give it a cid outside every universe
+    let t := (s.drop 3).toString
+    let t := if t.startsWith "-/" then "4294967295" ++ (t.drop 1).toString else t
+    (parsePin t).map some
   else none
 
 /-- a trailing `!k`: the k-th consensus call of the API call fails -/
@@ -58,6 +74,7 @@ structure Case where
   pre : PinMap
   op : Op
   fault : Option Nat := none
+  rpc : Option RpcCall := none       -- the call entered through the RPC layer; `op` is then what the request MEANS
   res : Option Pin
   post : PinMap
   log : List LogEntry
@@ -66,7 +83,11 @@ def parseCase (ws : List String) : Option Case := do
   let (pre, post) ← splitArrow ws
   match pre, post with
   | cfg :: peers :: paths :: blocks :: pm :: opw, [res, pm', log] =>
-    pure { cfg := ← parseCfg cfg peers paths blocks, pre := ← parsePinset pm, op := ← parseOp (splitFault opw).1,
+    let rpc := parseRpc (splitFault opw).1
+    let op ← match rpc with
+      | some call => some ((call.intended).getD (.unpin 0))
+      | none => parseOp (splitFault opw).1
+    pure { cfg := ← parseCfg cfg peers paths blocks, pre := ← parsePinset pm, op := op, rpc := rpc,
            fault := (splitFault opw).2, res := ← parseRes res, post := ← parsePinset pm', log := ← parseLog log }
   | _, _ => none
 
@@ -129,6 +150,18 @@ def answerConc (ws : List String) : String :=
     | _, _, _, _, _, _, _ => "bad-case conc-parse"
   | _ => "bad-case conc"
 
+/-- a reading RPC call (`PinGet`): the stored entry of that cid, error when absent; nothing changes -/
+def answerRead (k : Case) (call : RpcCall) : String :=
+  let arm := "rpc.pinget" ++ (if ((match call with | .pinGet c => k.pre.get c | _ => none)).isSome then "-present" else "-absent")
+  let want : Option Pin := match call with | .pinGet c => k.pre.get c | _ => none
+  let failed := [("pinget_reports_stored_entry", k.res.map canonPin == want.map canonPin),
+                 ("read_leaves_pinset_unchanged", canonMap k.pre == canonMap k.post && k.log.isEmpty)].filter (fun c => !c.2)
+  if !failed.isEmpty then "propfail " ++ ",".intercalate (failed.map (·.1)) ++ " arm=" ++ arm else
+  match rpcRead Gen.rpcTable k.pre call with
+  | some r => if (r.map (fun l => l.map canonPin)) == (k.res.map (fun p => [canonPin p])) then "ok arm=" ++ arm
+              else "diff arm=" ++ arm ++ " model=" ++ (if r.isSome then "ok" else "err")
+  | none => "diff arm=" ++ arm ++ " model=rpc-unknown-shape"
+
 def answer (ws : List String) : String :=
   if ws.head? == some "conc" then answerConc ws.tail else
   match parseCase ws with
@@ -136,11 +169,18 @@ def answer (ws : List String) : String :=
   | some k =>
     if ws.contains "panic" then "propfail call_panicked arm=" ++ opName k.op else
     if !k.pre.wf then "bad-case pre-not-sorted" else
+    match (match k.rpc with | some (.pinGet c) => some (RpcCall.pinGet c) | _ => none) with
+    | some call => answerRead k call
+    | none =>
     -- the allocation the implementation chose: that of the stored entry for the op's cid
     let chosen := match opCid k.cfg k.op with
       | some c => ((k.post.get c).map (·.allocs)).getD []
       | none => []
-    let out := stepF k.cfg k.pre k.op chosen k.fault
+    -- through the RPC layer: the generated table of rpc_api.go decides which Cluster operation runs
+    let outRpc : Option Out := match k.rpc with
+      | some call => rpcStepF Gen.rpcTable k.cfg k.pre call chosen k.fault
+      | none => some (stepF k.cfg k.pre k.op chosen k.fault)
+    let out := outRpc.getD (err k.pre)
     let reached := match k.fault with
       | some f => if f < (step k.cfg k.pre k.op chosen).log.length then "-fault" ++ toString f else ""
       | none => ""
@@ -157,8 +197,9 @@ def answer (ws : List String) : String :=
           | some c => (match k.pre.get c with | some p => if p.type == .metaT then "-meta" else if p.type == .dataT then "-data" else "-other" | none => "-absent")
           | none => "-unresolved")
       | _ => ""
-    let arm := opName k.op ++ sub ++ reached ++ (if k.cfg.follower then "-follower" else "") ++ (if out.res.isSome then "-ok" else "-err")
+    let arm := (if k.rpc.isSome then "rpc." else "") ++ opName k.op ++ sub ++ reached ++ (if k.cfg.follower then "-follower" else "") ++ (if out.res.isSome then "-ok" else "-err")
     let agree :=
+      outRpc.isSome &&
       out.res.isSome == k.res.isSome &&
       canonMap out.post == canonMap k.post &&
       sameLog out.log k.log &&
